@@ -366,7 +366,7 @@ class DomainDefinition:
                             ind[(vecax+1) % 2] = i
                             vec_to_write = vec[tuple(ind)].astype(np.float32)
                         else:
-                            vec_to_write = vec.astype(np.float32)
+                            vec_to_write = vec.astype(np.float32).reshape(-1)  # 1-D also for a block holding one vector
 
                         if pad_to_vector:
                             vec_pad = np.zeros(3*self.nnodes, dtype=np.float32)
